@@ -435,12 +435,19 @@ def cycleFields (S : SchemaMut) : Nat → List Nat → CycleState → Except Sch
     else cycleFields S fuel rest cs
 end
 
+/-- longest field list / union of the graph -/
+def maxWidth (S : SchemaMut) : Nat :=
+  (S.toList.map fun n => match n.type with
+    | .record _ fs => fs.length
+    | .union vs => vs.length
+    | _ => 0).foldl max 0
+
 def checkForCycles (S : SchemaMut) : Except SchemaErr Unit :=
   let rec go : Nat → Nat → CycleState → Except SchemaErr Unit
     | 0, _, _ => .ok ()
     | n + 1, i, cs =>
       if isRecord S i ∧ ¬ cs.checked.contains i then
-        match cycleInner S (2 * S.size + 2) i cs with
+        match cycleInner S ((S.size + 2) * (maxWidth S + 2)) i cs with
         | .error e => .error e
         | .ok cs => go n (i + 1) cs
       else go n (i + 1) cs
